@@ -865,6 +865,18 @@ def deep_calls(F, body, ops, depth=0, seen=None, follow_mutarg=False):
         seen = set()
     sl = backward_slice(body, ops, follow_mutarg=follow_mutarg)
     out = list(sl.calls)
+    # values produced by closures in the slice (x.map(|..| f(..)).collect()): the calls made
+    # inside those closures contribute to the value
+    for rv in sl.aggs:
+        ck = rv.get('closure')
+        if ck and ck in F.bodies and ('in', ck) not in seen and depth < 5:
+            seen.add(('in', ck))
+            cb = F.bodies[ck]
+            out.extend(cb.calls())
+            for b2 in F.closures_of(cb.root or cb.key):
+                if b2.parent == ck and ('in', b2.key) not in seen:
+                    seen.add(('in', b2.key))
+                    out.extend(b2.calls())
     if body.kind == 'Closure' and depth < 5:
         # parameters other than the environment
         if any(p >= 2 for p in sl.params):
